@@ -370,6 +370,9 @@ const PUT_ARGS: [&str; 30] = [
 ];
 const SHIFT_ARGS: [usize; 10] = [2, 2, 3, 3, 6, 9, 12, 1, 4, 0];
 
+const FPUT_ARGS: [&str; 16] = ["70", "71", "90", "91", "99", "80", "5", "123", "0", "00", "05", "000", "1", "10", "100", "1000"];
+const PUSH_ARGS: [&str; 6] = ["0", "1", "5", "9", "00", "12"];
+
 pub fn random_history(rng: &mut Rng) -> Vec<Op> {
     let n = 1 + rng.usize(9);
     let mut ops = Vec::with_capacity(n);
@@ -378,8 +381,8 @@ pub fn random_history(rng: &mut Rng) -> Vec<Op> {
             0 => Op::Put(rng.pick_str(&PUT_ARGS).to_string()),
             1 => Op::PutDigitAt(b'0' + if rng.chance(1, 12) { 0 } else { 1 + rng.below(9) as u8 }, rng.usize(7)),
             2 => Op::Shift(*rng.pick(&SHIFT_ARGS)),
-            3 => Op::Fput(rng.pick_str(&["70", "71", "90", "91", "99", "80", "5", "123", "0", "00", "05", "000", "1", "10", "100", "1000"]).to_string()),
-            4 => Op::Push(rng.pick_str(&["0", "1", "5", "9", "00", "12"]).to_string()),
+            3 => Op::Fput(rng.pick_str(&FPUT_ARGS).to_string()),
+            4 => Op::Push(rng.pick_str(&PUSH_ARGS).to_string()),
             5 => Op::Freeze,
             _ => Op::Reset,
         };
@@ -392,6 +395,35 @@ fn history_json(ops: &[Op]) -> J {
     J::Arr(ops.iter().map(|o| J::Str(o.show())).collect())
 }
 
+fn record_history(rep: &mut Report, label: &str, ops: &[Op], v: HistoryVerdict) {
+    let h = crate::rng::hash_str(&ops.iter().map(|o| o.show()).collect::<Vec<_>>().join(","));
+    rep.eval(h, v.steps_judged > 0);
+    rep.add("steps_judged", v.steps_judged as u64);
+    if v.ended_undocumented {
+        rep.count("histories_ended_at_an_undocumented_case");
+    }
+    for r in &v.renderings {
+        rep.seen_str("distinct_renderings_visited", r);
+    }
+    if let Some(msg) = v.failure {
+        let op_name = msg.split('(').nth(1).and_then(|s| s.split(':').next()).unwrap_or("?").to_string();
+        let class = if msg.contains("panicked") {
+            "panic"
+        } else if msg.contains("reported an error but changed") {
+            "error-mutates"
+        } else if msg.contains("frozen") {
+            "frozen"
+        } else if msg.contains("lost or reordered") {
+            "digit-lost"
+        } else {
+            "model"
+        };
+        rep.violation(&format!("{}:{}:{}", label, class, op_name), jobj! {"kind" => "history", "ops" => history_json(ops)}, format!("history [{}]: {}", ops.iter().map(|o| o.show()).collect::<Vec<_>>().join(", "), msg));
+    } else if rep.want_sample() && v.steps_judged >= 4 && h % 20000 == 0 {
+        rep.sample(jobj! {"history" => history_json(ops), "renderings_after_each_step" => J::Arr(v.renderings.iter().map(|r| J::Str(r.clone())).collect())});
+    }
+}
+
 /// the history workload, shared by the release run and the debug-profile leg
 pub fn history_workload(ctx: &Ctx, n_hist: u64, label: &str) -> Report {
     run_sharded(ctx, |w, nw, rep| {
@@ -402,34 +434,73 @@ pub fn history_workload(ctx: &Ctx, n_hist: u64, label: &str) -> Report {
             }
             let ops = random_history(&mut rng);
             let v = run_history(&ops);
-            let h = crate::rng::hash_str(&ops.iter().map(|o| o.show()).collect::<Vec<_>>().join(","));
-            rep.eval(h, v.steps_judged > 0);
-            rep.add("steps_judged", v.steps_judged as u64);
-            if v.ended_undocumented {
-                rep.count("histories_ended_at_an_undocumented_case");
-            }
-            for r in &v.renderings {
-                rep.seen_str("distinct_renderings_visited", r);
-            }
-            if let Some(msg) = v.failure {
-                let op_name = msg.split('(').nth(1).and_then(|s| s.split(':').next()).unwrap_or("?").to_string();
-                let class = if msg.contains("panicked") {
-                    "panic"
-                } else if msg.contains("reported an error but changed") {
-                    "error-mutates"
-                } else if msg.contains("frozen") {
-                    "frozen"
-                } else if msg.contains("lost or reordered") {
-                    "digit-lost"
-                } else {
-                    "model"
-                };
-                rep.violation(&format!("{}:{}:{}", label, class, op_name), jobj! {"kind" => "history", "ops" => history_json(&ops)}, format!("history [{}]: {}", ops.iter().map(|o| o.show()).collect::<Vec<_>>().join(", "), msg));
-            } else if rep.want_sample() && v.steps_judged >= 4 && rng.chance(1, 20000) {
-                rep.sample(jobj! {"history" => history_json(&ops), "renderings_after_each_step" => J::Arr(v.renderings.iter().map(|r| J::Str(r.clone())).collect())});
-            }
+            record_history(rep, label, &ops, v);
         }
     })
+}
+
+/// every operation the random histories draw from, each argument once
+pub fn op_alphabet() -> Vec<Op> {
+    let mut v: Vec<Op> = Vec::new();
+    let mut seen = std::collections::BTreeSet::new();
+    for a in PUT_ARGS.iter() {
+        if seen.insert(*a) {
+            v.push(Op::Put(a.to_string()));
+        }
+    }
+    for d in [b'0', b'1', b'5', b'9'] {
+        for pos in 0..7usize {
+            v.push(Op::PutDigitAt(d, pos));
+        }
+    }
+    let mut seen_s = std::collections::BTreeSet::new();
+    for p in SHIFT_ARGS.iter() {
+        if seen_s.insert(*p) {
+            v.push(Op::Shift(*p));
+        }
+    }
+    for a in FPUT_ARGS.iter() {
+        v.push(Op::Fput(a.to_string()));
+    }
+    for a in PUSH_ARGS.iter() {
+        v.push(Op::Push(a.to_string()));
+    }
+    v.push(Op::Freeze);
+    v.push(Op::Reset);
+    v
+}
+
+/// bounded exhaustive part: EVERY history of exactly `depth` operations over the alphabet (shorter ones are their
+/// prefixes, judged step by step on the way)
+pub fn exhaustive_workload(ctx: &Ctx, depth: u32, label: &str) -> Report {
+    let alpha = op_alphabet();
+    let k = alpha.len() as u64;
+    let total = k.pow(depth);
+    let alpha = &alpha;
+    let mut rep = run_sharded(ctx, |w, nw, rep| {
+        let mut done = 0u64;
+        let mut idx = w as u64;
+        while idx < total {
+            if done % 4096 == 0 && ctx.over_budget() {
+                rep.count("exhaustive_enumeration_cut_by_budget");
+                break;
+            }
+            let mut x = idx;
+            let mut ops: Vec<Op> = Vec::with_capacity(depth as usize);
+            for _ in 0..depth {
+                ops.push(alpha[(x % k) as usize].clone());
+                x /= k;
+            }
+            let v = run_history(&ops);
+            record_history(rep, label, &ops, v);
+            rep.count(&format!("exhaustive_histories_of_length_{}", depth));
+            done += 1;
+            idx += nw as u64;
+        }
+    });
+    rep.add(&format!("exhaustive_alphabet_size_depth_{}", depth), k);
+    rep.add(&format!("exhaustive_histories_expected_depth_{}", depth), total);
+    rep
 }
 
 /// builder states that cross the public `apply(word, &mut DigitString)` boundary during text workloads
@@ -467,10 +538,15 @@ fn boundary_workload(ctx: &Ctx, n_texts: u64) -> Report {
 pub fn run(ctx: &Ctx) -> Outcome {
     let n_hist = ctx.n(5_000_000, 120_000_000);
     let mut rep = history_workload(ctx, n_hist, "C12-release");
+    // bounded exhaustive: every history of 3 operations (quick) / 4 operations (thorough, budget permitting)
+    rep.merge(exhaustive_workload(ctx, 3, "C12-exhaustive"));
+    if !ctx.quick() {
+        rep.merge(exhaustive_workload(ctx, 4, "C12-exhaustive"));
+    }
     rep.merge(boundary_workload(ctx, ctx.n(200_000, 4_000_000)));
     // debug-profile leg (overflow checks, debug_assert): the same history workload in a child process
     super::legs::run_leg(ctx, &mut rep, "debug", "T2N_LEG_DEBUG", &["c12", &ctx.seed.to_string(), &ctx.n(300_000, 6_000_000).to_string()], 600);
-    let rule = "histories = random sequences of 1..9 operations over put / put_digit_at / shift / fput / push / freeze / reset with arguments biased to zeros and to the widths the interpreters use (2,3,6,9,12); after every step: rendering is ASCII digits, len() agrees, on Err all queries (to_string,len,is_empty,is_null,peek,is_free,is_position_free,is_range_free,is_ordinal at 9 positions / 6 ranges) unchanged, frozen => refused, non-zero digits kept in order, and status + all queries equal to the positional model wherever the documentation settles the case (undocumented cases end the history); run in the release profile and again in a debug-profile child (overflow checks, debug_assert); plus the state invariants on every builder state crossing apply() in text workloads; non-trivial = history with at least one judged step";
+    let rule = "histories = every sequence of 3 operations (thorough: 4, budget permitting; counters exhaustive_*) over the full argument alphabet, and random sequences of 1..9 operations over put / put_digit_at / shift / fput / push / freeze / reset with arguments biased to zeros and to the widths the interpreters use (2,3,6,9,12); after every step: rendering is ASCII digits, len() agrees, on Err all queries (to_string,len,is_empty,is_null,peek,is_free,is_position_free,is_range_free,is_ordinal at 9 positions / 6 ranges) unchanged, frozen => refused, non-zero digits kept in order, and status + all queries equal to the positional model wherever the documentation settles the case (undocumented cases end the history); run in the release profile and again in a debug-profile child (overflow checks, debug_assert); plus the state invariants on every builder state crossing apply() in text workloads; non-trivial = history with at least one judged step";
     finish(ctx, rep, rule, &["push after freeze, put with a leading-zero multi-digit argument, put on a shorter buffer, put_digit_at with digit 0 or position 0, shift(0) and a shift whose destination lies beyond the left edge are not judged (documentation silent)", "fput must succeed unless frozen; its placement is compared with the overwrite model and a divergence only ends the history"], vec![])
 }
 
